@@ -20,9 +20,9 @@ DEFAULT_CAP = None  # tensora's own 1024*1024
 
 PARAMS = {
     "quick": dict(formats_per_assignment=4, tries=60, inputs=6, caps=[1, 2], c_fraction=4, wide_inputs=24,
-                  gen_kernels=6, random_assignments=40, random_kernels=40),
+                  gen_kernels=6, random_assignments=40, random_kernels=40, float_fraction=2),
     "thorough": dict(formats_per_assignment=12, tries=300, inputs=10, caps=[1, 2, 3, DEFAULT_CAP], c_fraction=2,
-                     wide_inputs=40, gen_kernels=40, random_assignments=300, random_kernels=250),
+                     wide_inputs=40, gen_kernels=40, random_assignments=300, random_kernels=250, float_fraction=1),
 }
 
 
@@ -539,7 +539,7 @@ def _run(t: str, s: int) -> Result:
     FLOATS = [0.1, -0.3, 1e-3, 3.7e5, 2.0 / 3.0, -1.25e-7, 12345.678, 1e10, -7.0, 0.5]
     for ki, (k, cap, group) in enumerate(kernel_list):
         if group in ("broadcast-target",) or ki in faulty_kernels or \
-                (ki % (2 * P["c_fraction"]) != 0 and group not in ("literal", "inexact-literal")):
+                (ki % P["float_fraction"] != 0 and group not in ("literal", "inexact-literal", "structure-witness")):
             continue
         fu = exprs.first_use(k.asg)
         inputs = []
